@@ -55,6 +55,8 @@ def cases(tier, seed):
             out.append(c)
     for i, (fam, N, to, normalize) in enumerate(itertools.product([0, 2, 4], [1, 2], ['first', 'last'], [False, True])):
         out.append({'kind': 'zero', 'fam': fam, 'N': N, 'to': to, 'normalize': normalize, 'tier': tier, 'id': f'zero-{i}', 'seed': hash_seed(seed, 'C08', 'zero', i)})
+    for i, (fam, trunc) in enumerate(itertools.product(range(len(FAMS)), ['D1', 'D1-block', 'tol-half'])):
+        out.append({'kind': 'svd_canon', 'fam': fam, 'N': 2, 'trunc': trunc, 'tier': tier, 'id': f'svdcanon-{fam}-{trunc}', 'seed': hash_seed(seed, 'C08', 'svdcanon', i)})
     for i, (fam, N) in enumerate(itertools.product(range(len(FAMS)), [1, 2, 3])):
         if N == 3 and FAMS[fam][1] == 'dense' and (tier == 'quick' or FAMS[fam][0] == 'qdit'):
             continue        # dense blocks: 3^k sign forks per QR (spin-1/2: thorough only; qudit N=3: beyond the budget)
@@ -354,6 +356,64 @@ def k_zero(ctx, spec):
     ctx.check(psi.pC is None, 'zero state: canonize_ leaves no central block')
     ctx.is_zero(dense_chain(psi, ph), 'zero state: canonize_ keeps the zero state')
     return {'N': N, 'zero_site': z}
+
+
+def k_svd_canon(ctx, spec):
+    """truncation is honest: on a state prepared in the documented mixed canonical form (sites left of the central block left-isometric,
+    right of it right-isometric: ASSUMED as equations on the symbolic site tensors), the number returned by diagonalize_central_ is the
+    relative distance between the original and the truncated state:
+        || old - new ||^2 == factor^2 sum(S_discarded^2),   || old ||^2 == factor^2 sum(S^2),   returned^2 sum(S^2) == sum(S_discarded^2)"""
+    import yastn
+    from symx import core as _core
+    rng, ops, psi, obj = _chain(ctx, dict(spec, obj='mps'))
+    ph = ops.space()
+    N = psi.N
+    cfg = ops.config
+    b = 0
+    pC = (b, b + 1)
+    vl, vr = psi[b].get_legs(2).conj(), psi[b + 1].get_legs(0).conj()
+    C = yastn.zeros(config=cfg, legs=[vl, vr])
+    if C.size == 0 or C.size > 16:
+        ctx.skip('no/large central block')
+    ctx.fill(C, 'c', 'real')
+    # canonical form as assumption (used for obligations only: non-linear)
+    for n, to in ((0, 'last'), (1, 'first')):
+        M = _site_matrix(psi, n, to)
+        G = dense.conj(M.T) @ M
+        for i in range(G.shape[0]):
+            for j in range(G.shape[1]):
+                if ctx.mode == 'sym':
+                    from symx.core import zc
+                    _core.ENG.assume(zc(G[i, j])[0] == (1 if i == j else 0), feas=False)
+    if ctx.mode == 'float':
+        # float run: a genuinely canonical state instead of the assumption
+        psi.canonize_(to='last', normalize=False).canonize_(to='first', normalize=False)
+        psi.orthogonalize_site_(n=0, to='last', normalize=False)
+        C = psi.A[psi.pC]
+        psi.factor = 1.0 * psi.factor
+    else:
+        psi.pC = pC
+        psi.A[pC] = C
+    A0 = dense_chain(psi, ph)
+    f0 = psi.factor
+    opts = {'D1': {'D_total': 1}, 'D1-block': {'D_block': 1}, 'tol-half': {'tol': 0.5}}[spec['trunc']]
+    U0, S0, V0 = yastn.linalg.svd(psi.A[psi.pC], axes=(0, 1), sU=1)
+    mask = yastn.linalg.truncation_mask(S0, **opts)
+    disc = psi.diagonalize_central_(opts_svd=opts, normalize=False)
+    kept = [bool(x) for x in mask._data]
+    s_all = list(S0._data)
+    n2_all = sum(x * x for x in s_all)
+    n2_out = sum((x * x for x, k in zip(s_all, kept) if not k), 0)
+    if not any(kept):
+        if ctx.mode == 'sym':
+            raise _core.PathAbort('everything truncated on this path (all Schmidt values zero): zero state')
+        ctx.skip('everything truncated')
+    A1 = dense_chain(psi, ph)
+    Dlt = A0 - A1
+    ctx.eq([(dense.conj(Dlt) * Dlt).sum()], [f0 * f0 * n2_out], 'canonical form: || old - truncated ||^2 == factor^2 x sum of discarded Schmidt values squared')
+    ctx.eq([(dense.conj(A0) * A0).sum()], [f0 * f0 * n2_all], 'canonical form: || old ||^2 == factor^2 x sum of all Schmidt values squared')
+    ctx.eq([disc * disc * n2_all], [n2_out], 'returned^2 x sum(S^2) == sum(S_discarded^2): the returned number is the relative distance')
+    return {'N': N, 'trunc': spec['trunc'], 'kept': kept}
 
 
 def k_norm(ctx, spec):
